@@ -130,6 +130,9 @@ def render_canonical(doc) -> str:
                 out.append(f"  {k}:")
                 for k2, v2 in v["nested"]:
                     out.append(f"    {k2}::{c_value(v2)}")
+            elif v["v"] == "zone":
+                out.append(f"  {k}::")
+                _c_zone(v, "  ", out)
             else:
                 out.append(f"  {k}::{c_value(v)}")
     if doc["sep"]:
@@ -441,6 +444,9 @@ class Lenient:
                         self.assign_op()
                         self.value(v2, w2, k2)
                         self.eol()
+                elif v["v"] == "zone":
+                    o.w(" " * w + k + "::\n")
+                    self.zone(v, " " * w)
                 else:
                     o.w(" " * w + k)
                     self.assign_op()
